@@ -22,6 +22,12 @@ var c08Templates = [][]string{
 	// names (hence the same id) whose placeholders stand for different content
 	{"{namespace a}\n/** @param x */\n{template .t}\n{msg desc=\"d\"}Go <a href=\"/beta\">{$x|noAutoescape}</a>!{/msg}{msg desc=\"e\"}untranslated {$x}{/msg}\n{/template}\n" +
 		"/** @param x */\n{template .other}\n{msg desc=\"d\"}Go <a href=\"/alpha\">{$x}</a>!{/msg}\n{/template}\n"},
+	// 4: a template that calls itself 12 levels deep with data="all" plus a param; calls with data
+	// taken from an empty map, a map holding the param's key, and a map expression, plus params
+	{"{namespace a}\n/** @param x\n @param e\n @param m\n @param? n */\n{template .t}\n{$x}{call .r data=\"all\"}{param n: 0 /}{/call}" +
+		"{call .v data=\"$e\"}{param k: $x /}{/call}{call .v data=\"$m\"}{param k: 2 /}{param j}c{/param}{/call}{call .v data=\"$e\" /}{$e}{$m.k}\n{/template}\n" +
+		"/** @param x\n @param n */\n{template .r}\n[{$n}{$x}]{if $n < 12}{call .r data=\"all\"}{param n: $n + 1 /}{/call}{/if}\n{/template}\n" +
+		"/** @param? k\n @param? j */\n{template .v}\n({$k ?: '-'}{$j ?: '-'})\n{/template}\n"},
 }
 
 // c08Catalogue translates every message whose text is "Go <a>X</a>!".
@@ -67,7 +73,7 @@ func c08Data(d int) data.Map {
 	case 1:
 		l = data.List{data.Int(1), x}
 	}
-	return data.Map{"x": x, "l": l, "m": data.Map{"k": x}}
+	return data.Map{"x": x, "l": l, "m": data.Map{"k": x}, "e": data.Map{}}
 }
 
 func verifBang(v data.Value, _ []data.Value) data.Value { return data.String(v.String() + "!") }
